@@ -60,25 +60,25 @@ CHECKS = {
    "Programs are cooperative (no send half dropped while its side keeps reading) so that a hang is the library's. Fault offsets are sampled, not enumerated, in the quick tier.",
    "DESIGN.md §3 C07"),
  "C08": ("sim-raw", "exploration",
-   "property-based testing / fuzzing: h2 server against a scripted reference peer injecting the RFC violation catalogue after generated prefixes, under generated read chunking; oracle = no panic in any task, no self-waking connection task, the endpoint's own output stays legal",
-   "Every run of every SIM engine reports panics (with location), poisoned locks and a connection task that keeps waking itself without progress as C08 violations; this check drives the h2 server with the catalogue of illegal and unusual frames in generated stream states and read chunkings.",
-   "Byte-level mutation/random-soup generators and the libFuzzer targets are added in the thorough tier (see DESIGN.md).",
-   "DESIGN.md §3 C08"),
+   "property-based testing / structured fuzzing: frame-soup engines (h2 server and h2 client under test) receive 1-28 generated frames following the conversation, a third of them mutated (flag flip, length field, consistent resize, type, stream id incl. R bit, payload bytes, truncation, duplication), illegal SETTINGS / WINDOW_UPDATE values, fixed-size frames of wrong size, garbage bytes, under generated chunking / schedule / blocked writes, then EOF (sometimes inside a frame); plus the RFC violation catalogue and the PAIR engines with resets and faults; oracle = no panic, no self-waking loop, no endless output inside one poll, everything completes after the peer is gone, own output stays legal",
+   "Every run of every simulator engine reports panics (with location), poisoned locks and busy connection tasks as C08 violations. The soup engines add: more than 100 000 transport writes inside one poll (runaway output), and at quiescence after the peer's EOF the connection future and every application operation must have completed (lost wake-ups told apart by a generous re-poll). The endpoint's own output is still held against the framing, HPACK, state-machine and flow-control accountants.",
+   "Generated, not exhaustive: a defect that needs one specific 5-frame sequence in one specific chunking is found only with the probability the generator gives that sequence (same-stream stories are biased up for that reason).",
+   "DESIGN.md §7.2 C08"),
  "C09": ("sim-raw", "exploration",
    "property-based testing: (generated legal prefix reaching a stream state) × (one item of an RFC 9113 violation / legal-but-unusual catalogue) × probe request; oracle = required reaction class per catalogue row (connection error / at least stream error / tolerated), containment (nothing surfaced, other streams keep working)",
-   "78 catalogue rows, each carrying the RFC sentence it encodes, are injected into an h2 server whose target stream was driven into one of five states; afterwards a PING barrier and a probe request decide: connection errors need GOAWAY(code≠0) and an ended connection, stream errors need at least RST_STREAM on that stream with the probe still served, legal-but-unusual items need no error at all and a served probe. Only the class of reaction is demanded, never a code.",
+   "80 catalogue rows, each carrying the RFC sentence it encodes, are injected into an h2 server whose target stream was driven into one of seven states (none, open, half-closed remote, closed, reset by the peer, refused for exceeding the limit, open after a completed graceful-shutdown handshake); afterwards a PING barrier and a probe request decide: connection errors need GOAWAY(code≠0) and an ended connection, stream errors need at least RST_STREAM on that stream with the probe still served, legal-but-unusual items need no error at all and a served probe. Only the class of reaction is demanded, never a code.",
    "Catalogue rows transcribed from RFC 9113 by hand (audit: harness/src/eng_raw.rs). Client-side catalogue (push/response items) is a separate engine.",
    "DESIGN.md §3 C09, App. A"),
  "C17": ("sim-pair", "exploration",
    "property-based testing: generated exchanges with send_reset(code∈u32)/handle drops at every position; oracle = RST_STREAM count/code/order per stream on the tapped wire against the API log, and error-info comparison (reason, remote/library/user, reset/go-away) on every handle",
    "Per stream and endpoint: the n-th RST_STREAM needs n−1 late peer frames (n when the first was not application-caused); RST after HEADERS on own streams; the first code equals the caller's code, CANCEL for an implicit cancel, NO_ERROR only from a server whose response was complete; an explicit send_reset on an unfinished open stream of a live connection must reach the wire; every error a handle reports as remote carries a code the peer really sent.",
-   "Codes are generated over the full u32 range (3/4 biased to the 14 registered codes).",
-   "DESIGN.md §3 C17"),
+   "Codes are generated over the full u32 range (3/4 biased to the 14 registered codes). I/O failures: the Faults engine injects EOF, read errors (ConnectionReset and UnexpectedEof kinds), write errors and write-zero at generated offsets; every I/O error a handle reports must carry a text the simulated transport produced (a synthetic error made up by the library is a violation).",
+   "DESIGN.md §3 C17, §7.2"),
  "C19": ("sim-pair", "exploration",
    "property-based testing: generated exchanges where every stream ends by some path and every handle is dropped; oracle = read-only statistics probe (guarded hook) at quiescence of the live connection against the a-priori idle values, wire/API check of the idle client close",
    "At quiescence of a live connection with all application tasks finished the store holds only remembered local resets (≤ quota), no orphan records, empty send buffer, zero concurrency counters, zero in-flight receive bytes, fully unassigned connection send capacity; `dangling store key` panics are attributed here; a client whose last SendRequest and stream are gone must send GOAWAY(NO_ERROR), shut the transport down and return Ok(()).",
-   "Two known findings (push-related leaks) and one record leak are listed in known_findings.json by signature.",
-   "DESIGN.md §3 C19"),
+   "Two known findings (push-related leaks) and one record leak are listed in known_findings.json by signature; unreachable records are identified through the guarded orphans() probe and classified by their history (reset while waiting for send capacity / finished cleanly / reset / other) so that a different leak is still reported.",
+   "DESIGN.md §3 C19, §7.2"),
  "C13": ("sim-raw", "exploration",
    "property-based testing from a grammar: header sections (request/response/interim/trailers + one mutation) and DATA-vs-content-length sequences sent by the reference peer to an h2 server and an h2 client; oracle = RFC 9113 §8 validity predicate (refmodel::http) vs what the receive API delivers; the same predicate runs over every header section either endpoint emits",
    "Malformed header sections (uppercase, connection-specific, TE, unknown/duplicate/misplaced/wrong-direction/missing pseudo-header fields, CONNECT forms, pseudo-headers in trailers, trailers without END_STREAM, content-length that disagrees with DATA, with HEAD/204/304 exemptions) must never be handed to the application as valid and a mismatching body must not end cleanly; valid oddities must be delivered; programs submitting connection-specific/TE fields check that nothing malformed is emitted.",
@@ -109,6 +109,11 @@ CHECKS = {
    "Patterns: open-and-reset (before / after accept), streams over the advertised limit, CONTINUATION flood, empty / tiny / padded DATA floods on an unread stream, PING and SETTINGS floods while the endpoint's writes are blocked, header lists beyond the advertised size, DATA on closed streams, malformed requests the library resets, WINDOW_UPDATE / PRIORITY / unknown-frame floods, abandoned accepted streams, generated frame-unit floods; against a client: PUSH_PROMISE, 1xx and stray RST_STREAM floods. Unless the endpoint terminated the connection with an error, stream records, buffered receive events, queued send frames, bytes consumed while its own writes are blocked and live heap bytes allocated inside Connection::poll must not grow over both doublings.",
    "Bounds are judged by scaling (a quota that is merely huge would pass); memory of the application-facing handles is not attributed to the connection.",
    "DESIGN.md §3 C18"),
+ "C20": ("sim-pair", "exploration",
+   "property-based testing over schedules: (a) the generated h2 client/server programs with an extra choice tape that polls runnable application tasks at transport callbacks inside a connection's poll (the points where the connection has released its locks), every sequential oracle re-evaluated on the interleaved trace; (b) randomised real-thread stress (OS threads using request, send, receive/flow-control and ping handles in parallel with both connection drivers) with a completion / integrity / no-poison oracle",
+   "(a) is deterministic and shrinkable: handle operations (send_request, send_data, reserve/poll_capacity, release_capacity, send_reset, ping, handle clone/drop, body reads) happen in the middle of Connection::poll exactly where another thread could run; the connection must hold no lock there (locks_free probe), nothing may panic, poison or deadlock, and the delivery, flow-control, state-machine, concurrency, progress, wake-up, reset and release oracles must hold on the resulting trace — that is what 'equivalent to some sequential order' means operationally. (b) covers what one thread cannot: simultaneous lock acquisition (lock-order inversions deadlock within seconds) and lost wake-ups across threads; a stall is a verdict only when no involved thread consumed CPU time between two looks, so machine load cannot raise an alarm.",
+   "(b) is not reproducible at will (the replay file is the program; the observed violation is reported as observed). Weak-memory effects that x86 hardware does not exhibit are out of reach of both.",
+   "DESIGN.md §7.2 C20"),
 }
 
 NOT_YET = "check not built yet in this round (machinery in progress; see DESIGN.md §5 build order)"
@@ -146,8 +151,8 @@ def main():
         "engines": [
             {"name": "hpack-enc", "path": "harness/src/eng_hpack.rs", "serves_properties": ["C10"], "kind_free_text": "proptest-driven generated histories through h2's Codec write side; strict reference HPACK decoder as oracle"},
             {"name": "codec", "path": "harness/src/eng_codec.rs", "serves_properties": ["C12"], "kind_free_text": "h2 Codec as Sink/Stream over a scripted transport vs refmodel::wire"},
-            {"name": "sim-pair", "path": "harness/src/{sim,sim_pair,eng_pair,oracles,tapx}.rs", "serves_properties": ["C01", "C02", "C04", "C05", "C06", "C07", "C17", "C19"], "kind_free_text": "deterministic simulator: h2 client and server on a waker-faithful single-thread executor over a scripted transport with an independent tap; proptest-generated programs/schedules/chunkings"},
-            {"name": "sim-raw", "path": "harness/src/{sim_raw,eng_raw}.rs", "serves_properties": ["C03", "C08", "C09", "C13", "C14", "C15", "C16", "C18"], "kind_free_text": "h2 endpoint against a scripted frame-level reference peer (cooperative core + generated deviation script) on the deterministic simulator"},
+            {"name": "sim-pair", "path": "harness/src/{sim,sim_pair,eng_pair,eng_threads,oracles,oracles2,tapx}.rs", "serves_properties": ["C01", "C02", "C04", "C05", "C06", "C07", "C17", "C19", "C20"], "kind_free_text": "deterministic simulator: h2 client and server on a waker-faithful single-thread executor over a scripted transport with an independent tap; proptest-generated programs/schedules/chunkings"},
+            {"name": "sim-raw", "path": "harness/src/{sim_raw,eng_raw,eng_raw2,eng_soup,eng_flood,heapmeter}.rs", "serves_properties": ["C03", "C08", "C09", "C13", "C14", "C15", "C16", "C18"], "kind_free_text": "h2 endpoint against a scripted frame-level reference peer (cooperative core + generated deviation script) on the deterministic simulator"},
             {"name": "hpack-dec", "path": "harness/src/eng_hpack.rs", "serves_properties": ["C11"], "kind_free_text": "differential h2 decoder vs RFC 7541 reference on generated/mutated/hostile blocks; whole-vs-split through Codec; exhaustive Huffman/integer sub-spaces"},
         ],
         "checks": checks,
